@@ -58,7 +58,14 @@ def lifecycle(rnd):
             {"c": "set", "i": 3, "v": 9}, {"c": "set_meta", "m": m + [1]}, {"c": "set_tree", "d": 20}, {"c": "get_meta"}, {"c": "leaves_set"},
             {"c": "append", "v": 4}, {"c": "flush"}, {"c": "set_tree", "d": 20}, {"c": "get_leaf", "i": 0}, {"c": "get_meta"},
             {"c": "reset", "d": 3}, {"c": "set_tree", "d": 3}, {"c": "set_meta", "m": m}, {"c": "set_tree", "d": 3}, {"c": "get_meta"},
-            {"c": "init", "vs": [1, 2]}, {"c": "get_meta"}]
+            {"c": "init", "vs": [1, 2]}, {"c": "get_meta"},
+            # calls that must FAIL on a context that holds leaves, and leave it as it was (added after C11-m10: a rejected
+            # initialisation had already replaced the tree - on both surfaces alike, so only "unchanged" can tell)
+            {"c": "set", "i": 5, "v": 7}, {"c": "leaves_set"},
+            {"c": "init", "vs": list(range(1, 10))}, {"c": "leaves_set"}, {"c": "get_leaf", "i": 5}, {"c": "get_root"},
+            {"c": "range", "s": 7, "vs": [1, 2]}, {"c": "get_root"},
+            {"c": "override", "s": 6, "vs": [1, 2, 3], "rem": [0]}, {"c": "get_leaf", "i": 0}, {"c": "get_root"},
+            {"c": "init", "vs": list(range(1, 30))}, {"c": "leaves_set"}, {"c": "get_meta"}]
 
 
 def full_tree():
